@@ -56,6 +56,32 @@ class Ctx:
             gomod = re.sub(r"replace github.com/runreveal/pql => .*", "replace github.com/runreveal/pql => " + REPO, gomod)
             open(os.path.join(work, "go.mod"), "w").write(gomod)
             shutil.copy(os.path.join(REPO, "go.sum"), os.path.join(work, "go.sum"))
+        if getattr(self, "want_clicopy", False) and not race:
+            # the command's unexported input plumbing, compiled into the harness from the working tree's own
+            # source (package main cannot be imported): cmd/pql/*.go as package clicopy plus an export file
+            cc = os.path.join(work, "clicopy")
+            shutil.rmtree(cc, ignore_errors=True)
+            os.makedirs(cc)
+            for f in sorted(os.listdir(os.path.join(REPO, "cmd", "pql"))):
+                if f.endswith(".go") and not f.endswith("_test.go"):
+                    src = open(os.path.join(REPO, "cmd", "pql", f)).read()
+                    src = re.sub(r"(?m)^package main\b", "package clicopy", src)
+                    src = re.sub(r"(?m)^func main\(\)", "func Main()", src)
+                    open(os.path.join(cc, f), "w").write(src)
+            open(os.path.join(cc, "zz_export.go"), "w").write(
+                "package clicopy\n\nimport \"io\"\n\n"
+                "// NewMulti exposes the command's concatenating reader to the harness.\n"
+                "func NewMulti(rs []io.ReadCloser) io.ReadCloser { return &multiReadCloser{readers: rs} }\n")
+            p = subprocess.run(["go", "build", "-tags", tags + " clicopy", "-o", out, "."], cwd=work, env=GOENV,
+                               capture_output=True, text=True)
+            if p.returncode == 0:
+                self.harness_bin = out
+                self.clicopy = True
+                return out
+            # the plumbing was restructured: the reader replay is skipped and reported, the rest of the harness is built
+            self.clicopy = False
+            self.clicopy_error = p.stderr[-1500:]
+            shutil.rmtree(cc, ignore_errors=True)
         cmd = ["go", "build", "-tags", tags]
         if race:
             cmd.append("-race")
